@@ -51,7 +51,7 @@ try:
     res["checks"] = {}
     for c in checks:
         t = time.time()
-        rc, out = sh("./check %s quick" % c, cwd=vc, e=dict(env, VERIF_REPO=wt), timeout=3000)
+        rc, out = sh("./check %s quick" % c, cwd=vc, e=dict(env, VERIF_REPO=wt, VERIF_COQC_TIMEOUT="300"), timeout=3000)
         lines = [l for l in out.split("\n") if l.startswith("VIOLATION") or l.startswith("BROKEN") or " quick:" in l]
         res["checks"][c] = {"exit": rc, "seconds": round(time.time() - t, 1), "lines": [l[:300] for l in lines][:12]}
         for l in out.split("\n"):
